@@ -124,75 +124,7 @@ func kvScanIndexRegistration(r *core.Run) {
 	r.Floor("scan-index-registration(deletes)", dels, 2)
 	r.Floor("scan-index-registration(resets)", resets, 1)
 
-	// registration on append
-	for _, name := range []string{kvPkg + ".(*KVStore).makeTable", kvPkg + ".(*KVStore).Fork"} {
-		fn := r.Need("scan-index-registration", name)
-		if fn == nil {
-			continue
-		}
-		f := fn.SSA
-		n := counter{}
-		apps := 0
-		core.Instrs(f, func(in ssa.Instruction) {
-			c, ok := in.(*ssa.Call)
-			if !ok {
-				return
-			}
-			b, ok := c.Call.Value.(*ssa.Builtin)
-			if !ok || b.Name() != "append" || len(c.Call.Args) != 2 {
-				return
-			}
-			// append(k.tables, t) with a single new element
-			elem := appendedSingle(c.Call.Args[1])
-			if elem == nil || !isTablePtr(elem.Type()) {
-				return
-			}
-			// destination is a tables field (k.tables or child.tables)
-			stored := false
-			for _, ref := range *c.Referrers() {
-				if st, ok := ref.(*ssa.Store); ok && core.LastField(st.Addr) == "tables" {
-					stored = true
-				}
-			}
-			if !stored {
-				return
-			}
-			apps++
-			key := n.next(name + " append(tables, t)")
-			// (1) registered: tablesByCoefficient[...] = t on every path to a success return
-			reg := func(x ssa.Instruction) bool {
-				mu, ok := x.(*ssa.MapUpdate)
-				return ok && core.LastField(mu.Map) == "tablesByCoefficient" && canonVal(mu.Value) == canonVal(elem)
-			}
-			ret := core.ReachesReturnFrom(in, reg, func(*ssa.Return) bool { return true })
-			r.Check(ret == nil, "scan-index-registration", key+" registered", site(r, instrPos(in)),
-				"every return after the append passes tablesByCoefficient[cf] = t", "a table becomes part of the store without being registered in the scan index: its keys are never scanned")
-			// (2) writable: fresh from table.New, or SetState(ReadWriteState) on every path
-			if call, ok := elem.(*ssa.Call); ok {
-				if o := core.CalleeObj(call); o != nil && core.QualName(o) == tablePkg+".New" {
-					r.OK("scan-index-registration", key+" writable", site(r, instrPos(in)), "fresh table (table.New starts in ReadWriteState)")
-					return
-				}
-			}
-			setRW := func(x ssa.Instruction) bool {
-				sc, ok := x.(*ssa.Call)
-				if !ok {
-					return false
-				}
-				o := core.CalleeObj(sc)
-				if o == nil || core.QualName(o) != tablePkg+".(*Table).SetState" || len(sc.Call.Args) != 2 || canonVal(sc.Call.Args[0]) != canonVal(elem) {
-					return false
-				}
-				k, ok := sc.Call.Args[1].(*ssa.Const)
-				return ok && k.Value != nil && k.Int64() == readWrite
-			}
-			ret = core.ReachesReturnFrom(in, setRW, func(*ssa.Return) bool { return true })
-			r.Check(ret == nil, "scan-index-registration", key+" writable", site(r, instrPos(in)),
-				"a reused table is put back into ReadWriteState on every path",
-				"a recycled table is reused as the head table without SetState(ReadWriteState): compaction (which skips only ReadWrite tables) evicts the head into itself and transfer skips it, losing its keys")
-		})
-		r.Floor("scan-index-registration("+fn.Obj.Name()+")", apps, 1)
-	}
+	kvRegistrationOnAppend(r, readWrite)
 }
 
 func isTablePtr(t types.Type) bool {
